@@ -107,15 +107,17 @@ func TestCases(t *testing.T) {
 	logger.SetLevel(logrus.PanicLevel)
 	every := vh.EnvInt("VERIF_EVERY", 1)
 	seed := vh.Seed()
+	ran := 0 // cases actually run: choices made by position must not alias with the seed-dependent selection
 	err := vh.ReadCases(path, func(idx int, raw []byte) error {
 		if (idx+int(seed))%every != 0 {
 			return nil
 		}
+		ran++
 		var c hcase
 		if err := json.Unmarshal(raw, &c); err != nil {
 			return err
 		}
-		cfg := cfgs[idx%len(cfgs)]
+		cfg := cfgs[ran%len(cfgs)]
 		synctest.Test(t, func(t *testing.T) {
 			fakeClient := mainFake.NewSimpleClientset()
 			// every Watch call gets a watcher of its own (the reflector opens a new one after a re-list); the object tracker is kept in
@@ -133,7 +135,7 @@ func TestCases(t *testing.T) {
 			watches := func() int { wmu.Lock(); defer wmu.Unlock(); return opened }
 			cur := func() *watch.FakeWatcher { wmu.Lock(); defer wmu.Unlock(); return podsWatch }
 			gvr := core_v1.SchemeGroupVersion.WithResource("pods")
-			relist := idx%3 == 2 // deletions are not seen on the watch: it breaks, the pod goes, the reflector lists again
+			relist := (ran/len(cfgs))%3 == 2 // deletions are not seen on the watch: it breaks, the pod goes, the reflector lists again
 			p, err := k8s.NewProvider(logger, fakeClient, k8s.PodInformerOptions{ResyncPeriod: 100000 * time.Hour, WatchCluster: true}, cfg.ann, cfg.label)
 			if err != nil {
 				t.Fatal(err)
